@@ -671,13 +671,16 @@ impl ast::Capture {
         if self.quantifier == tree_sitter::CaptureQuantifier::Zero {
             return Err(ExecutionError::UndefinedCapture(format!("{}", self)));
         }
-        Ok(Value::from_nodes(
-            exec.graph,
-            exec.mat
-                .nodes_for_capture_index(self.file_capture_index as u32),
-            self.quantifier,
-        )
-        .into())
+        let mut nodes = exec
+            .mat
+            .nodes_for_capture_index(self.file_capture_index as u32)
+            .peekable();
+        // tree-sitter reports quantifier one for a capture that sits on a predicate, but never
+        // captures a node for it
+        if self.quantifier == tree_sitter::CaptureQuantifier::One && nodes.peek().is_none() {
+            return Err(ExecutionError::UndefinedCapture(format!("{}", self)));
+        }
+        Ok(Value::from_nodes(exec.graph, nodes, self.quantifier).into())
     }
 }
 
